@@ -159,6 +159,7 @@ PROPS["C14"] = dict(
     note=E2_NOTE,
     technique=E2_TECH,
     e2=[dict(rule="R-FWD.functional"), dict(rule="R-GETFN")],
+    e3=[dict(group="C14")],
     rule="E2: one instance per functor callable, functor object, op alias and get_function specialisation under include/nmtools/array/functional (core machinery files excluded); distinct by qualified name",
     explanation="A functor equals the direct view call only if its callable forwards to the view of the same name with the same arity; these are structural facts.",
     not_decided="currying splits, f*g associativity at value level, operand identity, compute-graph node ids",
